@@ -390,7 +390,18 @@ def exhaustive_cases(thorough):
         ([[0, P, 1]], [sym, copy]),
         (chain + [[0, A, 0]], [anyp]),
     ]
-    so = [C(0), C(1), C(2), V("X"), V("Y"), V("v0"), V("v1"), V("v7")]
+    if thorough:
+        double = {"prem": [[X, C(A), Y], [Y, C(A), Z]], "concl": [[X, C(A), Z]], "filt": []}
+        two = {"prem": [[V("s"), C(P), V("v1")]], "concl": [[V("s"), C(A), V("v1")], [V("v1"), C(A), V("s")]], "filt": []}
+        chain3 = {"prem": [[X, C(P), Y], [Y, C(P), Z], [Z, C(P), V("v0")]], "concl": [[X, C(A), V("v0")]], "filt": []}
+        const = {"prem": [[X, C(P), X]], "concl": [[X, C(A), C(0)]], "filt": []}
+        programs += [
+            ([[0, P, 1]], [copy, double]),
+            (chain, [two]),
+            (chain + [[2, P, 0]], [chain3, v_copy]),
+            (chain + [[1, P, 1]], [const, right]),
+        ]
+    so = [C(0), C(1), C(2), V("X"), V("Y"), V("v0"), V("v1"), V("v7")] + ([V("s")] if thorough else [])
     pr = [C(P), C(A), V("X"), V("v0")]
     cases = []
     for facts, rules in programs:
@@ -665,14 +676,15 @@ def run(ctx):
     evaluate_bc(ctx, binpath, ex, "exhaustive")
     ctx.coverage["exhaustive"] = True
     ctx.coverage["exhaustive_scope"] = ("%(programs)d fixed programs (ancestor right/left recursive in both rule orders, rule variables "
-                                        "named v0/v1/v7, symmetry, a variable-predicate rule) x all %(goals_per_program)d goals over "
-                                        "s/o in {a,b,c,?X,?Y,?v0,?v1,?v7}, p in {parent,anc,?X,?v0}" % exinfo)
+                                        "named v0/v1/v7, symmetry, a variable-predicate rule; thorough adds doubly recursive, two-conclusion, "
+                                        "3-premise and constant-conclusion programs) x all %(goals_per_program)d goals over "
+                                        "s/o in {a,b,c,?X,?Y,?v0,?v1,?v7} (+?s in thorough), p in {parent,anc,?X,?v0}" % exinfo)
     cap = 6000 if ctx.thorough else 2500
-    n = 4000 if ctx.thorough else 400
+    n = 12000 if ctx.thorough else 400
     rnd = gen_filtered(ctx, n, False, cap, "random-gen")
     ctx.sample(rnd[0])
     evaluate_bc(ctx, binpath, rnd, "random")
-    nf = 1000 if ctx.thorough else 120
+    nf = 3000 if ctx.thorough else 120
     flt = gen_filtered(ctx, nf, True, cap, "filters-gen")
     ctx.sample(flt[0])
     evaluate_bc(ctx, binpath, flt, "filters")
